@@ -553,6 +553,26 @@ async def run_async(case, out):
                 out.violate("balance-differs", "acct %d wallet %d model %d" % (a, bal, sum(spendable.values())))
             if bal_all != total_all:
                 out.violate("balance-with-claims-differs", "acct %d wallet %d model %d" % (a, bal_all, total_all))
+            # the detailed view: value locked in claims / supports reported apart from spendable funds
+            try:
+                det = await env.accounts[a].get_detailed_balance()
+            except Exception as e:
+                out.violate("detailed-balance-raises:%s" % type(e).__name__, repr(e)[:200])
+                det = None
+            if det is not None:
+                claims = sum(amt for _, _, amt, k, _ in mine if k in ("claim", "update"))
+                supports = sum(amt for _, _, amt, k, _ in mine if k.startswith("support"))
+                want = {"total": total_all, "available": sum(spendable.values()), "reserved": total_all - sum(spendable.values()),
+                        "claims": claims, "supports+tips": supports}
+                sub = det.get("reserved_subtotals", {})
+                have = {"total": det.get("total"), "available": det.get("available"), "reserved": det.get("reserved"),
+                        "claims": sub.get("claims"), "supports+tips": (sub.get("supports") or 0) + (sub.get("tips") or 0)}
+                if set(k for _, _, _, k, _ in mine) <= {"pay", "claim", "update", "support", "support_data"}:
+                    bad = sorted(k for k in want if want[k] != have[k])
+                    if bad:
+                        out.violate("detailed-balance-differs:" + "+".join(bad), "acct %d wallet %r model %r" % (a, have, want))
+                else:
+                    out.label("detailed-balance-not-judged:other-kinds")
             if got != spendable:
                 extra = set(got) - set(spendable)
                 miss = set(spendable) - set(got)
